@@ -7,7 +7,7 @@ META = {
     "technique": "Lean model of compress/snappy/xerial.go (writer loop/Flush/Close, reader readChunk/Read with header detection, unframed and direct-decode paths, Reset) over an abstract block codec with kernel-checked theorems (content conservation, block bounds, output = Spec framing, Spec.parse∘frame = id, reader drains reference streams, round trip, Reset = fresh); independent framing spec Spec/Xerial; correspondence of the real codecs (gzip, snappy framed/unframed, lz4, zstd) through a compiled Lean oracle: writer block partition and reader Read-size sequences vs the model, losslessness under random Write/Read chunking, interop both ways with stdlib gzip, golang/snappy + eapache/go-xerial-snappy, pierrec/lz4 and klauspost/zstd used directly, pooled-object history independence (after normal, truncated, corrupt, abandoned and failed-sink streams), concurrent use (-race in thorough).",
     "level_claimed": {
         "category": "proof",
-        "text": "Kernel-checked for the xerial framing and the pool protocol, for every payload, every split into Write calls and any block codec with dec(enc b) = b: the writer's output is exactly the Spec framing of blocks that concatenate to the payload, each non-empty and ≤ 32 KiB (one raw block when unframed); Spec.parse accepts it; the reader drains every Spec-framed reference stream and every unframed block (not starting with the magic) to the concatenation; round trip writer→reader; Reset yields the fresh state. The READER is proved for ARBITRARY Read buffer sizes (reads_reference_streams, reads_reference_unframed, xerial_roundtrip full: writer→reader for every payload, Write split and Read size sequence, framed and unframed) and also compared with the real reader's Read-size sequences. Pool protocol LTS (acquire/Reset/use/Close/Put, repeated Close, pool drops): pool_inv / pool_no_sharing (an object is in the pool at most once, never while in use, never used by two wrappers) over all op sequences, close_idempotent, double_close_counterexample for a Close that keeps its object. Block size / flush threshold regenerated from xerial.go (gen_xerial_consts). Round 3: the underlying io.Reader is a parameter of the reader model (any script of short reads, (0,nil) answers, data returned together with io.EOF): source_independent, reads_reference_streams_any_source, xerial_roundtrip_any_source (+ data_with_eof_counterexample); 'Put is the last touch' (touch_exclusive, put_before_reset_counterexample) with the statement order of all 8 Close methods extracted by go/ast on every run (gen_close_order). Round 4: configuration-keyed pools (cfg_respected, shared_pool_counterexample, extracted pool ownership gen_pool_keys), lib_history_independent for the library-backed codecs under their Reset contract, io.Copy paths WriteTo / ReadFrom modelled and proved (writeTo_reference_streams, readFrom_conserves). gzip / lz4 / zstd wrappers only pool + Reset library objects: correspondence only (losslessness, interop, history independence, concurrency), conditional on the libraries' Reset contracts. Later: the premise of reset_fresh is read off the source (go/extract resetfields -> Gen/XerialReset, gen_reset_complete: every mutable field of xerialReader / xerialWriter is assigned by Reset, by the constructor after the pool Get, or is scratch); streams that END EARLY: simulation lemmas (Lemmas/XerialCut) and truncated_stream_prefix(+_any_source): for a framed reference stream cut anywhere after the header, any Read sizes and any source behaviour, everything handed out before the end/error is a prefix of the payload; op xrcut runs the real xerialReader on such streams against the model (it corrected the model: a stream that stops right after a frame length is reported as a clean io.EOF by the code).",
+        "text": "Kernel-checked for the xerial framing and the pool protocol, for every payload, every split into Write calls and any block codec with dec(enc b) = b: the writer's output is exactly the Spec framing of blocks that concatenate to the payload, each non-empty and ≤ 32 KiB (one raw block when unframed); Spec.parse accepts it; the reader drains every Spec-framed reference stream and every unframed block (not starting with the magic) to the concatenation; round trip writer→reader; Reset yields the fresh state. The READER is proved for ARBITRARY Read buffer sizes (reads_reference_streams, reads_reference_unframed, xerial_roundtrip full: writer→reader for every payload, Write split and Read size sequence, framed and unframed) and also compared with the real reader's Read-size sequences. Pool protocol LTS (acquire/Reset/use/Close/Put, repeated Close, pool drops): pool_inv / pool_no_sharing (an object is in the pool at most once, never while in use, never used by two wrappers) over all op sequences, close_idempotent, double_close_counterexample for a Close that keeps its object. Block size / flush threshold regenerated from xerial.go (gen_xerial_consts). Round 3: the underlying io.Reader is a parameter of the reader model (any script of short reads, (0,nil) answers, data returned together with io.EOF): source_independent, reads_reference_streams_any_source, xerial_roundtrip_any_source (+ data_with_eof_counterexample); 'Put is the last touch' (touch_exclusive, put_before_reset_counterexample) with the statement order of all 8 Close methods extracted by go/ast on every run (gen_close_order). Round 4: configuration-keyed pools (cfg_respected, shared_pool_counterexample, extracted pool ownership gen_pool_keys), lib_history_independent for the library-backed codecs under their Reset contract, io.Copy paths WriteTo / ReadFrom modelled and proved (writeTo_reference_streams, readFrom_conserves). gzip / lz4 / zstd wrappers only pool + Reset library objects: correspondence only (losslessness, interop, history independence, concurrency), conditional on the libraries' Reset contracts. Later: the premise of reset_fresh is read off the source (go/extract resetfields -> Gen/XerialReset, gen_reset_complete: every mutable field of xerialReader / xerialWriter is assigned by Reset, by the constructor after the pool Get, or is scratch); streams that END EARLY: simulation lemmas (Lemmas/XerialCut) and truncated_stream_prefix(+_any_source): for a framed reference stream cut anywhere after the header, any Read sizes and any source behaviour, everything handed out before the end/error is a prefix of the payload; op xrcut runs the real xerialReader on such streams against the model (it corrected the model: a stream that stops right after a frame length is reported as a clean io.EOF by the code). Round 6: Read buffers with len < cap are in the model (readB/readBuf; the bound of the decode-into-the-caller's-buffer shortcut is read off readChunk by go/extract xerialfacts): read_contract (n <= len(p) always), readBuf_eq_read (capacity irrelevant), cap_bound_counterexample; the block encoder installed per Compression option is regenerated and proved to be one of the snappy-format encoders (gen_snappy_encoders); the driver reads into prefixes of larger arrays and exercises the non-default snappy levels with highly compressible payloads against the reference decoder.",
         "design_ref": "DESIGN.md §7 C16",
     },
     "level_note": "Trusted: Lean kernel; propext/Classical.choice/Quot.sound; Spec/Xerial.lean is my transcription of the snappy-java framing; the block compressors (klauspost snappy/s2, gzip, zstd, pierrec lz4) are parameters of the model and are not verified (their dec∘enc = id and Reset contracts are sampled by the correspondence); sync.Pool is modelled as 'may return any previously Put object or none'; an unframed raw snappy block whose first 8 bytes equal the xerial magic is indistinguishable from a framed stream by design of the format (needs a block of ≥ 2^… bytes whose uvarint length starts 0x82 0x53 …: length ≡ 0x…2982, excluded as hypothesis and not generated).",
@@ -34,6 +34,9 @@ def run(ctx):
     ok, log = ctx.extract("closeorder", ["lean/KafkaVerif/Gen/CodecClose.lean"])
     if not ok:
         broken.append({"kind": "obligation", "name": "translator go/extract closeorder", "detail": log[-1500:]})
+    ok, log = ctx.extract("xerialfacts", ["lean/KafkaVerif/Gen/XerialFacts.lean"])
+    if not ok:
+        broken.append({"kind": "obligation", "name": "translator go/extract xerialfacts", "detail": log[-1500:]})
     ok, log = ctx.extract("resetfields", ["lean/KafkaVerif/Gen/XerialReset.lean"])
     if not ok:
         broken.append({"kind": "obligation", "name": "translator go/extract resetfields", "detail": log[-1500:]})
